@@ -126,6 +126,7 @@ func c11Run(c C11Case, st *kit.Stats) (err error) {
 		return err
 	}
 	defer s.close()
+	s.strictHandOn = true
 	defer func() {
 		if err != nil {
 			err = fmt.Errorf("%v\nschedule:\n%s", err, strings.Join(s.log, "\n"))
